@@ -92,6 +92,10 @@ def _unit_spec(r, tag, avars, proc_init=False):
         steps.append({'name': '%ss%d' % (tag, i), 'cls': 'FStep', 'vars': avars, 'probe': None,
                       'flow': [[d['name']] for d in deps], 'reads': [d['name'] for d in deps],
                       'noemit': [], 'where': 'steps'})
+    if steps and r.chance(30):
+        # documented legacy style: every step comes out of generate_processes
+        for sp in steps:
+            sp['where'] = 'processes'
     return {'procs': procs, 'steps': steps}
 
 
@@ -504,6 +508,19 @@ def check_override(case, runs):
     if var not in given and val != want:
         return [V('C16', 'C16.override', 'not-applied',
                   'schema override %r: %s starts at %r, expected the overriding default %r' % (ov, var, val, want))]
+    # the override reaches exactly the process it names: nobody else starts
+    # declaring (hence seeing) the overridden variable
+    specs = {sp['name']: sp for sp in u['procs'] + u['steps']}
+    for e in run.log:
+        if e['k'] in ('POLL', 'NU', 'STEPNU'):
+            sp = specs.get(e['uid'].split('#')[0])
+            if sp is None:
+                continue
+            seen = sorted(((e.get('view') or {}).get('acc') or {}).keys())
+            if seen != sorted(sp['vars']):
+                return [V('C16', 'C16.override', 'leaked',
+                          'schema override %r: %s sees variables %r, it declares %r' % (
+                              ov, e['uid'], seen, sorted(sp['vars'])), e['seq'])]
     acc = (first['snap'] or {}).get('acc') or {}
     for v, val_ in acc.items():
         if v != var and v not in given and val_ == want:
